@@ -226,6 +226,19 @@ func (c *Ctx) structSort(n *types.Named, st *types.Struct) string {
 	return name
 }
 
+// constArr: the array that maps every index to the given element (cvc5 accepts "as const" only for values)
+func (c *Ctx) constArr(idxSort, elemSort, elem string) string {
+	if !strings.Contains(elem, "strlit!") {
+		return fmt.Sprintf("((as const (Array %s %s)) %s)", idxSort, elemSort, elem)
+	}
+	name := "zarr_" + mangle(idxSort) + "_" + mangle(elemSort)
+	if !c.declared["const:"+name] {
+		c.decl("const:"+name, fmt.Sprintf("(declare-const %s (Array %s %s))", name, idxSort, elemSort))
+		c.axioms = append(c.axioms, condAxiom{[]string{name}, fmt.Sprintf("(forall ((i %s)) (! (= (select %s i) %s) :pattern ((select %s i))))", idxSort, name, elem, name)})
+	}
+	return name
+}
+
 // Zero value of a type.
 func (c *Ctx) Zero(t types.Type) string {
 	switch u := t.(type) {
@@ -249,12 +262,12 @@ func (c *Ctx) Zero(t types.Type) string {
 	case *types.Slice:
 		s := c.Sort(u)
 		es := c.Sort(u.Elem())
-		return fmt.Sprintf("(mk_%s ((as const (Array Int %s)) %s) 0 true)", s, es, c.Zero(u.Elem()))
+		return fmt.Sprintf("(mk_%s %s 0 true)", s, c.constArr("Int", es, c.Zero(u.Elem())))
 	case *types.Array:
-		return fmt.Sprintf("((as const (Array Int %s)) %s)", c.Sort(u.Elem()), c.Zero(u.Elem()))
+		return c.constArr("Int", c.Sort(u.Elem()), c.Zero(u.Elem()))
 	case *types.Map:
 		s := c.Sort(u)
-		return fmt.Sprintf("(mk_%s ((as const (Array %s Bool)) false) ((as const (Array %s %s)) %s))", s, c.Sort(u.Key()), c.Sort(u.Key()), c.Sort(u.Elem()), c.Zero(u.Elem()))
+		return fmt.Sprintf("(mk_%s ((as const (Array %s Bool)) false) %s)", s, c.Sort(u.Key()), c.constArr(c.Sort(u.Key()), c.Sort(u.Elem()), c.Zero(u.Elem())))
 	case *types.Interface:
 		return "(mk_iface 0 0)"
 	}
